@@ -2,14 +2,15 @@
 # Builds the framework offline from files on disk and warms the Go build cache
 # for the instrumented worker builds.
 set -e
-cd /verif/harness
+VERIF_DIR=$(cd "$(dirname "$0")" && pwd)
+cd "$VERIF_DIR/harness"
 export GOFLAGS=-mod=mod GOPROXY=off
 unset GOTOOLCHAIN GOSUMDB
-cp /repo/go.sum /verif/harness/go.sum 2>/dev/null || true
-mkdir -p /verif/.run/bin /verif/evidence /verif/replay
-go build -tags verif -o /verif/.run/bin/vcheck ./cmd/vcheck
-go build -tags verif -o /verif/.run/bin/jp ./cmd/jp
-go build -tags verif -cover -covermode=atomic -coverpkg=verif/harness/worker,github.com/woodsbury/jmespath/... -o /verif/.run/bin/worker.cover ./worker
-go build -tags verif -race -o /verif/.run/bin/worker.race ./worker
+cp /repo/go.sum "$VERIF_DIR/harness/go.sum" 2>/dev/null || true
+mkdir -p "$VERIF_DIR/.run/bin" "$VERIF_DIR/evidence" "$VERIF_DIR/replay"
+go build -tags verif -o "$VERIF_DIR/.run/bin/vcheck" ./cmd/vcheck
+go build -tags verif -o "$VERIF_DIR/.run/bin/jp" ./cmd/jp
+go build -tags verif -cover -covermode=atomic -coverpkg=verif/harness/worker,github.com/woodsbury/jmespath/... -o "$VERIF_DIR/.run/bin/worker.cover" ./worker
+go build -tags verif -race -o "$VERIF_DIR/.run/bin/worker.race" ./worker
 go test ./ref/ >/dev/null
 echo setup-ok
